@@ -397,7 +397,7 @@ func (p *c19) crossProcess(c *verifsim.Chooser, st *Stats, render bool) *Outcome
 		`{"ID":1,"Id":2,"iD":3,"URL":"upper","Url":"mixed","a":10,"A":20,"M":{"Key":1,"KEY":2,"key":3},"S":"x","s":"y","B":1,"b":2,"C":3,"Items":[1,2]}`,
 	}[c.Intn(2)]
 	noOpt := c.Intn(2) == 1
-	currentDesc.Store("cross-process driver determinism")
+	setDesc("cross-process driver determinism")
 	o.Digest.Str("xproc" + text + doc)
 	dir, err := os.MkdirTemp(os.Getenv("VERIF_TMP"), "c19-")
 	if err != nil {
@@ -497,7 +497,7 @@ func (p *c19) Run(c *verifsim.Chooser, st *Stats, render bool) *Outcome {
 		}
 	}
 	cs.debug = mode == 0 && c.Intn(6) == 1
-	currentDesc.Store("map-order case: " + clip(strings.ReplaceAll(cs.text, "\n", " "), 160))
+	setDesc("map-order case: " + clip(strings.ReplaceAll(cs.text, "\n", " "), 160))
 	seedA, seedB := uint64(c.Intn(1<<30)), uint64(c.Intn(1<<30))+7
 
 	ref := p.execute(cs, &verifsim.OrderPolicy{Kind: verifsim.OrdAsc})
